@@ -5,10 +5,14 @@ import Qx.Proofs.C09
 Property theorems only (model: `Qx/Model/C09Sm.lean`, helpers: `Qx/Proofs/C09.lean`).
 `run init ops` is the `StreamAckManager` after an arbitrary history `ops` of
 send / `<a h/>` / `<r/>` / received element / session closed / `<enabled/>` / `<resume/>` request /
-`<resumed h/>` / `resetCache`, each write succeeding or failing (`up`), in any order and of any length.
+`<resumed h/>` / `<failed [h]/>` / `resetCache`, each write succeeding or failing (`up`), in any order
+and of any length.  The operations that fire delivery reports carry `re`, the ids of the packets
+whose report continuation sends one new stanza from inside the report (re-entrancy); `re = []` is a
+client without such continuations, and every theorem below that mentions `re` holds for every `re`.
 "After history `pre`, operation `op` outputs `o`" is written `o ∈ (step (run init pre).1 op).2`;
 `Qx.C09.mem_run` (Proofs) shows that the output of a whole run consists of exactly these.
-Counters are unbounded; the 32-bit wrap of the C++ counters is outside the model.
+Counters are unbounded; the 32-bit wrap of the C++ counters is outside the model and outside every
+theorem here (the harness probes it on the real class).
 -/
 namespace Qx.C09
 
@@ -36,8 +40,9 @@ theorem report_at_most_once (ops : List Op) (p : Nat) :
   simp only [pool, List.nodup_append] at hnd
   exact List.nodup_iff_count.mp hnd.2.1 p
 
-/-- **No packet is forgotten.** Every packet created so far is either still stored (waiting for an
-ack, to be resent) or has its report — never both, never neither. -/
+/-- **No packet is forgotten.** Every packet created so far — also one sent from inside a delivery
+report — is either still stored (waiting for an ack, to be resent) or has its report; never both,
+never neither. -/
 theorem every_packet_pending_or_reported (ops : List Op) (p : Nat)
     (hp : p < (run init ops).1.nextId) :
     (p ∈ ids (run init ops).1.unacked ∧ p ∉ reportedIds (run init ops).2) ∨
@@ -49,30 +54,51 @@ theorem every_packet_pending_or_reported (ops : List Op) (p : Nat)
   · exact Or.inl ⟨h, fun h2 => hnd.2.2 p h p h2 rfl⟩
   · exact Or.inr ⟨fun h2 => hnd.2.2 p h2 p h rfl, h⟩
 
+/-- After `resetCache` nothing is stored, hence (previous theorem) every packet created so far has
+its report — including stanzas that report continuations sent while `resetCache` was running. -/
+theorem resetCache_leaves_nothing_unreported (pre : List Op) (re : List Nat) (up : Bool) (p : Nat)
+    (hp : p < (run init (pre ++ [.resetCache re up])).1.nextId) :
+    p ∈ reportedIds (run init (pre ++ [.resetCache re up])).2 := by
+  have hu : (run init (pre ++ [.resetCache re up])).1.unacked = [] := by
+    rw [run_append]
+    simp only [run, step]
+    exact (discAll_fields _ re up).1
+  rcases every_packet_pending_or_reported _ p hp with h | h
+  · rw [hu] at h; simp [ids] at h
+  · exact h.2
+
 /-- **Acknowledged only if covered.** Whenever, after any history, an operation reports packet `p`
-as *acknowledged*, that operation carries a handled count `h` (`op.ackH = some h`: it is the
-processing of `<a h/>` — then stream management is on — or of `<resumed h/>`, with or without
-re-entrant continuations), and there is a number `k ≤ h` such that `p` is stored under `k` at that
-moment, or — only possible with re-entrant continuations and an `h` beyond the last number used —
-`p` was sent by a continuation during this very operation and numbered `k` beyond `lastOut`. -/
+as *acknowledged*, `p` is stored at that moment under a sequence number `k`, and `k ≤ h` where `h`
+is either the handled count of the element being processed (`op.ackH = some h`: `<a h/>` — then
+stream management is on — or `<resumed h/>`) or the handled count a `<failed h/>` has left behind
+(`handled = some h`, see `handled_only_from_failed`). -/
 theorem ack_only_if_covered (pre : List Op) (op : Op) (p : Nat)
     (hm : Out.report p .acked ∈ (step (run init pre).1 op).2) :
-    ∃ h k, op.ackH = some h ∧ (op.isA = true → (run init pre).1.enabled = true) ∧ k ≤ h ∧
-      ((k, p) ∈ (run init pre).1.unacked ∨
-       ((run init pre).1.lastOut < k ∧ (run init pre).1.nextId ≤ p)) :=
+    ∃ h k, k ≤ h ∧ (k, p) ∈ (run init pre).1.unacked ∧
+      ((op.ackH = some h ∧ (op.isA = true → (run init pre).1.enabled = true)) ∨
+       (run init pre).1.handled = some h) :=
   step_acked _ op p hm
 
+/-- A pending handled count can only come from a `<failed h/>` received earlier. -/
+theorem handled_only_from_failed (ops : List Op) (h : Nat)
+    (hh : (run init ops).1.handled = some h) : Op.resumeFailed (some h) ∈ ops := by
+  rcases run_handled ops init h hh with h1 | h1
+  · cases h1
+  · exact h1
+
 /-- … the same, phrased on the output of a whole history: every *acknowledged* report in it was
-produced at some position by an operation whose `h` covered the packet's number at that position. -/
+produced at some position where an `h` received from the server covered the packet's number. -/
 theorem ack_only_if_covered_run (ops : List Op) (p : Nat)
     (hm : Out.report p .acked ∈ (run init ops).2) :
-    ∃ pre op post h k, ops = pre ++ op :: post ∧ op.ackH = some h ∧
-      (op.isA = true → (run init pre).1.enabled = true) ∧ k ≤ h ∧
-      ((k, p) ∈ (run init pre).1.unacked ∨
-       ((run init pre).1.lastOut < k ∧ (run init pre).1.nextId ≤ p)) := by
+    ∃ pre op post h k, ops = pre ++ op :: post ∧ k ≤ h ∧ (k, p) ∈ (run init pre).1.unacked ∧
+      ((op.ackH = some h ∧ (op.isA = true → (run init pre).1.enabled = true)) ∨
+       Op.resumeFailed (some h) ∈ pre) := by
   obtain ⟨pre, op, post, he, hs⟩ := (mem_run init ops _).mp hm
-  obtain ⟨h, k, h1, h2, h3, h4⟩ := ack_only_if_covered pre op p hs
-  exact ⟨pre, op, post, h, k, he, h1, h2, h3, h4⟩
+  obtain ⟨h, k, h1, h2, h3⟩ := ack_only_if_covered pre op p hs
+  refine ⟨pre, op, post, h, k, he, h1, h2, ?_⟩
+  rcases h3 with h3 | h3
+  · exact Or.inl h3
+  · exact Or.inr (handled_only_from_failed pre h h3)
 
 /-- The sequence number of a stored packet is unambiguous (so "`k ≤ h`" above speaks about *the*
 number of `p`). -/
@@ -83,128 +109,152 @@ theorem stored_number_unique (ops : List Op) (p k₁ k₂ : Nat)
   exact ids_nodup_unique hnd.1 h1 h2
 
 /-- **Confirmed when acked** (the converse direction): with stream management on, `<a h/>` reports
-every stored packet whose number is `≤ h` as acknowledged and removes exactly those. -/
-theorem acked_if_covered (pre : List Op) (h k p : Nat)
+every stored packet whose number is `≤ h` as acknowledged; and (client without sending
+continuations) what stays stored is exactly the packets with number `> h`. -/
+theorem acked_if_covered (pre : List Op) (h k p : Nat) (re : List Nat) (up : Bool)
     (hen : (run init pre).1.enabled = true) (hmem : (k, p) ∈ (run init pre).1.unacked) (hk : k ≤ h) :
-    Out.report p .acked ∈ (step (run init pre).1 (.ack h)).2 ∧
-    (step (run init pre).1 (.ack h)).1.unacked =
+    Out.report p .acked ∈ (step (run init pre).1 (.ack h re up)).2 ∧
+    (step (run init pre).1 (.ack h [] up)).1.unacked =
       (run init pre).1.unacked.filter (fun e => decide (h < e.1)) := by
   obtain ⟨a, _, hkf, _⟩ := (Inv.reachable pre).keys
   simp only [step, hen, if_true]
-  refine ⟨?_, hkf.keptPart_eq_filter⟩
-  rw [hkf.ackedPart_eq_filter]
-  simp only [ackReports, List.mem_map, List.mem_filter, decide_eq_true_eq]
-  exact ⟨(k, p), ⟨hmem, hk⟩, rfl⟩
+  refine ⟨?_, ?_⟩
+  · apply fire_reports .acked re up _ _ (k, p)
+    rw [hkf.ackedPart_eq_filter]
+    simp [hmem, hk]
+  · rw [fire_nil]; exact hkf.keptPart_eq_filter
 
 /-! ## Resending -/
 
 /-- **Resent exactly, in order, before newer traffic — resumption.** Split any history at a
-`<resumed h/>` whose writes succeed: what reaches the wire is everything written before, then
-exactly the stored packets with number `> h` in their original (sequence) order followed by one
-`<r/>` (nothing if there is none), then whatever later operations write. -/
-theorem resend_exact_in_order_resumed (pre post : List Op) (h : Nat) :
+`<resumed h/>` whose writes succeed, for any set `re` of sending continuations: what reaches the
+wire is everything written before, then exactly the stored packets with number `> h` (and beyond a
+pending `<failed/>` count, if any) in their original order followed by one `<r/>` (nothing if there
+is none), then `newer` — what the continuations of the reports send, all of it packets created
+during this operation — then whatever later operations write. -/
+theorem resend_exact_in_order_resumed (pre post : List Op) (h : Nat) (re : List Nat) :
     let s := (run init pre).1
-    wireOf (run init (pre ++ .resumed h true :: post)).2 =
-      wireOf (run init pre).2 ++
-      resendBlock (s.unacked.filter fun e => decide (h < e.1)) ++
-      wireOf (run (step s (.resumed h true)).1 post).2 := by
+    ∃ newer : List Wire,
+      wireOf (run init (pre ++ .resumed h re true :: post)).2 =
+        wireOf (run init pre).2 ++
+        resendBlock (beyond s.handled (s.unacked.filter fun e => decide (h < e.1))) ++ newer ++
+        wireOf (run (step s (.resumed h re true)).1 post).2 ∧
+      (∀ i, Wire.pkt i ∈ newer → s.nextId ≤ i) ∧ (re = [] → newer = []) := by
   intro s
   obtain ⟨a, _, hkf, _⟩ := (Inv.reachable pre).keys
-  rw [run_append, run_cons]
-  simp only [wireOf_append, wireOf_step_resumed_up, List.append_assoc]
-  rw [hkf.keptPart_eq_filter]
+  obtain ⟨a', _, hkf', _⟩ := keysInv_kept s h (Inv.reachable pre).keys
+  have hu := takeHandled_eq_beyond { s with unacked := keptPart h s.unacked } hkf'
+  simp only at hu
+  rw [hkf.keptPart_eq_filter] at hu
+  refine ⟨wireOf (fire .acked re true
+      (enableCore (takeHandled { s with unacked := keptPart h s.unacked }).1 false true).1
+      (takeHandled { s with unacked := keptPart h s.unacked }).2).2 ++
+    wireOf (fire .acked re true (fire .acked re true
+      (enableCore (takeHandled { s with unacked := keptPart h s.unacked }).1 false true).1
+      (takeHandled { s with unacked := keptPart h s.unacked }).2).1 (ackedPart h s.unacked)).2, ?_, ?_, ?_⟩
+  · rw [run_append, run_cons]
+    simp only [step, wireOf_append, wireOf_enableCore_up, List.append_assoc]
+    rw [← hu, hkf.keptPart_eq_filter]
+  · intro i hi
+    have tf := takeHandled_fields { s with unacked := keptPart h s.unacked }
+    have ef := enableCore_fields (takeHandled { s with unacked := keptPart h s.unacked }).1 false true
+    have m1 := (fire_mono .acked re true (takeHandled { s with unacked := keptPart h s.unacked }).2
+      (enableCore (takeHandled { s with unacked := keptPart h s.unacked }).1 false true).1).1
+    simp only at tf
+    have key : ∀ (o : List Out), Wire.pkt i ∈ wireOf o → i ∈ pktsOf o := by
+      intro o ho
+      simp only [wireOf, pktsOf, List.mem_filterMap] at ho ⊢
+      obtain ⟨x, hx, hw⟩ := ho
+      exact ⟨x, hx, by cases x <;> simp_all⟩
+    rcases List.mem_append.mp hi with hi | hi
+    · have := fire_pkts .acked re true _ _ i (key _ hi); omega
+    · have := fire_pkts .acked re true _ _ i (key _ hi); omega
+  · intro hre; subst hre
+    rw [wireOf_fire_nil, wireOf_fire_nil]; rfl
 
 /-- **… — new session.** Same for `<enabled/>` (fresh session after a failed resume): *all* stored
-packets, in their original order, then one `<r/>`. -/
-theorem resend_exact_in_order_enabledNew (pre post : List Op) :
+packets — except those a `<failed h/>` declared handled — in their original order, then one `<r/>`,
+then what the continuations of the reports send. -/
+theorem resend_exact_in_order_enabledNew (pre post : List Op) (re : List Nat) :
     let s := (run init pre).1
-    wireOf (run init (pre ++ .enabledNew true :: post)).2 =
-      wireOf (run init pre).2 ++ resendBlock s.unacked ++
-      wireOf (run (step s (.enabledNew true)).1 post).2 := by
+    ∃ newer : List Wire,
+      wireOf (run init (pre ++ .enabledNew re true :: post)).2 =
+        wireOf (run init pre).2 ++ resendBlock (beyond s.handled s.unacked) ++ newer ++
+        wireOf (run (step s (.enabledNew re true)).1 post).2 ∧
+      (∀ i, Wire.pkt i ∈ newer → s.nextId ≤ i) ∧ (re = [] → newer = []) := by
   intro s
-  rw [run_append, run_cons]
-  simp only [wireOf_append, wireOf_step_enabledNew_up, List.append_assoc]
-  rfl
+  obtain ⟨a, _, hkf, _⟩ := (Inv.reachable pre).keys
+  have hu := takeHandled_eq_beyond s hkf
+  refine ⟨wireOf (fire .acked re true (enableCore (takeHandled s).1 true true).1 (takeHandled s).2).2, ?_, ?_, ?_⟩
+  · rw [run_append, run_cons]
+    simp only [step, wireOf_append, wireOf_enableCore_up, List.append_assoc]
+    rw [← hu]
+  · intro i hi
+    have tf := takeHandled_fields s
+    have ef := enableCore_fields (takeHandled s).1 true true
+    have : i ∈ pktsOf (fire .acked re true (enableCore (takeHandled s).1 true true).1 (takeHandled s).2).2 := by
+      simp only [wireOf, pktsOf, List.mem_filterMap] at hi ⊢
+      obtain ⟨x, hx, hw⟩ := hi
+      exact ⟨x, hx, by cases x <;> simp_all⟩
+    have := fire_pkts .acked re true _ _ i this; omega
+  · intro hre; subst hre
+    rw [wireOf_fire_nil]
+
+/-- **Everything written while a session is (re)established is numbered.** Every packet that
+`<resumed/>` or `<enabled/>` processing puts on the wire — resent ones and stanzas sent by report
+continuations alike — is stored under a sequence number afterwards. -/
+theorem session_start_writes_only_numbered (s : St) (h : Nat) (re : List Nat) (up : Bool) :
+    (∀ p ∈ pktsOf (step s (.resumed h re up)).2, p ∈ ids (step s (.resumed h re up)).1.unacked) ∧
+    (∀ p ∈ pktsOf (step s (.enabledNew re up)).2, p ∈ ids (step s (.enabledNew re up)).1.unacked) := by
+  constructor
+  · intro p hp
+    simp only [step, pktsOf_append] at hp ⊢
+    have ef := enableCore_fields (takeHandled { s with unacked := keptPart h s.unacked }).1 false up
+    obtain ⟨x1, u1, _⟩ := fire_unacked .acked re up (takeHandled { s with unacked := keptPart h s.unacked }).2
+      (enableCore (takeHandled { s with unacked := keptPart h s.unacked }).1 false up).1
+    obtain ⟨x2, u2, _⟩ := fire_unacked .acked re up (ackedPart h s.unacked)
+      (fire .acked re up (enableCore (takeHandled { s with unacked := keptPart h s.unacked }).1 false up).1
+        (takeHandled { s with unacked := keptPart h s.unacked }).2).1
+    have m1 := fire_mono .acked re up (takeHandled { s with unacked := keptPart h s.unacked }).2
+      (enableCore (takeHandled { s with unacked := keptPart h s.unacked }).1 false up).1
+    rcases List.mem_append.mp hp with hp | hp
+    · rcases List.mem_append.mp hp with hp | hp
+      · have := enableCore_pkts _ false up p hp
+        rw [← ef.2.2.2.1] at this
+        rw [u2, u1]; simp only [ids, List.map_append, List.mem_append] at this ⊢
+        exact Or.inl (Or.inl this)
+      · have := fire_stored .acked re up _ _ ef.2.1 p hp
+        rw [u2]; simp only [ids, List.map_append, List.mem_append] at this ⊢
+        exact Or.inl this
+    · exact fire_stored .acked re up _ _ (by rw [m1.2.2.1]; exact ef.2.1) p hp
+  · intro p hp
+    simp only [step, pktsOf_append] at hp ⊢
+    have ef := enableCore_fields (takeHandled s).1 true up
+    obtain ⟨x1, u1, _⟩ := fire_unacked .acked re up (takeHandled s).2 (enableCore (takeHandled s).1 true up).1
+    rcases List.mem_append.mp hp with hp | hp
+    · have := enableCore_pkts _ true up p hp
+      rw [← ef.2.2.2.1] at this
+      rw [u1]; simp only [ids, List.map_append, List.mem_append] at this ⊢
+      exact Or.inl this
+    · exact fire_stored .acked re up _ _ ef.2.1 p hp
+
+/-- **`<a/>` site.** With stream management on, every stanza a continuation sends while `<a h/>` is
+processed is numbered and stored behind everything already stored. -/
+theorem ack_reentrant_sends_are_numbered (s : St) (h : Nat) (re : List Nat) (up : Bool)
+    (hen : s.enabled = true) :
+    ∀ p ∈ pktsOf (step s (.ack h re up)).2, p ∈ ids (step s (.ack h re up)).1.unacked := by
+  intro p hp
+  simp only [step] at hp ⊢
+  rw [if_pos hen] at hp ⊢
+  exact fire_stored .acked re up _ { s with unacked := keptPart h s.unacked } hen p hp
 
 /-- If the socket write fails during `<resumed/>` / `<enabled/>` processing nothing reaches the wire
 (the packets stay stored: see `every_packet_pending_or_reported`). -/
-theorem resend_nothing_when_write_fails (s : St) (h : Nat) :
-    wireOf (step s (.resumed h false)).2 = [] ∧ wireOf (step s (.enabledNew false)).2 = [] :=
-  ⟨wireOf_step_resumed_down s h, wireOf_step_enabledNew_down s⟩
-
-/-! ### Delivery reports whose continuation sends (re-entrancy) -/
-
-/-- Without sending continuations the re-entrant operations are the plain ones. -/
-theorem reentrant_ops_without_sending_continuations (s : St) (h : Nat) (up : Bool) :
-    step s (.ackRe h [] up) = step s (.ack h) ∧ step s (.resumedRe h [] up) = step s (.resumed h up) :=
-  ⟨step_ackRe_nil s h up, step_resumedRe_nil s h up⟩
-
-/-- **`<a/>` site.** With stream management on, every stanza a continuation sends while `<a h/>` is
-processed is numbered and stored behind everything already stored (or, if `h` is beyond, confirmed
-at once): nothing goes to the wire unnumbered. -/
-theorem ackRe_reentrant_sends_are_numbered (s : St) (h : Nat) (re : List Nat) (up : Bool)
-    (hen : s.enabled = true) :
-    ∀ p ∈ pktsOf (step s (.ackRe h re up)).2,
-      p ∈ ids (step s (.ackRe h re up)).1.unacked ∨ Out.report p .acked ∈ (step s (.ackRe h re up)).2 := by
-  simp only [step, hen, if_true]
-  exact ackPhase_stored s h re up hen
-
-/-- **Partial (`<resumed/>` site).** `resend_exact_in_order_resumed` extends to re-entrant
-continuations as long as none of the packets being acknowledged has a sending continuation.
-Missing for the full statement (every `re`): a continuation that sends while `<resumed/>` is
-processed — see `C09_defect_resumed_reentrant_send_unnumbered_and_first`. -/
-theorem resend_exact_in_order_resumedRe_partial (pre post : List Op) (h : Nat) (re : List Nat)
-    (hn : ∀ e ∈ (run init pre).1.unacked, e.1 ≤ h → re.contains e.2 = false) :
-    let s := (run init pre).1
-    wireOf (run init (pre ++ .resumedRe h re true :: post)).2 =
-      wireOf (run init pre).2 ++
-      resendBlock (s.unacked.filter fun e => decide (h < e.1)) ++
-      wireOf (run (step s (.resumedRe h re true)).1 post).2 := by
-  intro s
-  obtain ⟨a, _, hkf, _⟩ := (Inv.reachable pre).keys
-  rw [run_append, run_cons, step_resumedRe_none _ h re true hn]
-  simp only [wireOf_append, wireOf_step_resumed_up, List.append_assoc]
-  rw [hkf.keptPart_eq_filter]
-
-/-- **Defect of today's code.** Full statement: for *every* set of sending continuations, processing
-`<resumed h/>` writes the stored packets with number `> h` first (then whatever the continuations
-send), and every packet it writes is stored, i.e. numbered, afterwards.  False: `onResumed` fires
-the reports before stream management is switched on and before the resend, so a stanza sent by a
-continuation is written *before* the resent ones and is *not* numbered, although the server counts
-it on the resumed session.  Witness: two stanzas stored, connection lost, `<resumed h=1/>`, the
-continuation of packet 0 sends: wire = new packet 2, then packet 1, `<r/>`; packet 2 is reported
-"sent" and not stored. -/
-theorem C09_defect_resumed_reentrant_send_unnumbered_and_first :
-    ¬ (∀ (pre : List Op) (h : Nat) (re : List Nat),
-        let s := (run init pre).1
-        (∃ newer, wireOf (step s (.resumedRe h re true)).2 =
-            resendBlock (s.unacked.filter fun e => decide (h < e.1)) ++ newer) ∧
-        ∀ p ∈ pktsOf (step s (.resumedRe h re true)).2, p ∈ ids (step s (.resumedRe h re true)).1.unacked) := by
-  intro hall
-  have := (hall [.enabledNew true, .send true true, .send true true, .sessionClosed] 1 [0]).2 2 (by decide)
-  revert this
-  decide
-
-/-! ### `<failed h/>`: the handled count of a failed resumption -/
-
-/-- Today `onResumeFailed` does nothing at all, whatever `h` the server reports. -/
-theorem resumeFailed_is_ignored (s : St) (h : Option Nat) : step s (.resumeFailed h) = (s, []) := rfl
-
-/-- **Defect of today's code.** Full statement ("covered ones are never resent", coverage announced
-by the `h` of `<failed/>`, XEP-0198 section 5): after `<failed h/>` no stored packet with number
-`≤ h` is ever written again.  False: the count is not read, so the new session retransmits what the
-server had already handled.  Witness: one stanza stored under number 1, connection lost,
-`<failed h=1/>`, `<enabled/>`: packet 0 is written again.  The part that holds is
-`covered_never_resent` (coverage announced by `<a/>` or `<resumed/>`). -/
-theorem C09_defect_failed_h_ignored_covered_resent :
-    ¬ (∀ (pre post : List Op) (h k p : Nat),
-        (k, p) ∈ (run init pre).1.unacked → k ≤ h →
-        p ∉ pktsOf (run (run init pre).1 (.resumeFailed (some h) :: post)).2) := by
-  intro hall
-  have := hall [.enabledNew true, .send true true, .sessionClosed] [.enabledNew true] 1 1 0
-    (by decide) (by decide)
-  revert this
-  decide
+theorem resend_nothing_when_write_fails (s : St) (h : Nat) (re : List Nat) :
+    wireOf (step s (.resumed h re false)).2 = [] ∧ wireOf (step s (.enabledNew re false)).2 = [] := by
+  constructor
+  · simp only [step, wireOf_append, wireOf_enableCore_down, wireOf_fire_down, List.append_nil]
+  · simp only [step, wireOf_append, wireOf_enableCore_down, wireOf_fire_down, List.append_nil]
 
 /-- **Covered packets are never resent.** Once a packet has a report (in particular once it was
 acknowledged), no continuation of the history puts it on the wire again. -/
@@ -221,15 +271,56 @@ theorem acknowledged_never_resent (pre post : List Op) (p : Nat)
   simp only [reportedIds, List.mem_filterMap]
   exact ⟨_, hp, rfl⟩
 
-/-- **Renumbering from one.** `<enabled/>` (in any state whatsoever) renumbers the stored packets
-`1, 2, …, n` keeping their order, sets `lastOut = n` and the inbound counter to 0. -/
-theorem renumber_from_one (s : St) (up : Bool) :
-    (step s (.enabledNew up)).1.unacked =
-      (List.range' 1 s.unacked.length).zip (ids s.unacked) ∧
-    (step s (.enabledNew up)).1.lastOut = s.unacked.length ∧
-    (step s (.enabledNew up)).1.lastIn = 0 ∧
-    (step s (.enabledNew up)).1.enabled = true := by
-  simp [step, renumber_eq_zip]
+/-- **Covered by `<failed h/>`: never resent.** After a `<failed h/>` (handled count of the session
+that could not be resumed, XEP-0198 section 5) no stored packet with number `≤ h` is ever written
+again, in any continuation of the history in which the server does not later report a *lower* count
+for the same dead session. -/
+theorem failed_h_covered_never_resent (pre post : List Op) (h k p : Nat)
+    (hm : (k, p) ∈ (run init pre).1.unacked) (hk : k ≤ h)
+    (hmono : ∀ h', Op.resumeFailed (some h') ∈ post → h ≤ h') :
+    p ∉ pktsOf (run (run init pre).1 (.resumeFailed (some h) :: post)).2 := by
+  rw [run_cons]
+  simp only [step, pktsOf_nil, List.nil_append]
+  have hinv : Inv { (run init pre).1 with handled := some h } (run init pre).2 := by
+    have := Inv.reachable pre
+    exact ⟨this.keys, this.cnt⟩
+  exact run_cov post _ _ hinv p h ⟨k, h, hm, rfl, hk, Nat.le_refl _⟩ hmono
+
+/-- … and they are confirmed: when the new session is enabled (or the cache is reset) every stored
+packet the pending count covers is reported as acknowledged. -/
+theorem failed_h_covered_are_acknowledged (pre : List Op) (hf k p : Nat) (re : List Nat) (up : Bool)
+    (hh : (run init pre).1.handled = some hf) (hm : (k, p) ∈ (run init pre).1.unacked) (hk : k ≤ hf) :
+    Out.report p .acked ∈ (step (run init pre).1 (.enabledNew re up)).2 ∧
+    Out.report p .acked ∈ (step (run init pre).1 (.resetCache re up)).2 := by
+  have hinv := Inv.reachable pre
+  have hnd : (ids (run init pre).1.unacked).Nodup := by
+    have := hinv.nodup; simp only [pool, List.nodup_append] at this; exact this.1
+  have ht := (taken_of_covered _ hinv.keys hnd hm hh hk).1
+  constructor
+  · simp only [step]
+    exact List.mem_append.mpr (Or.inr (fire_reports .acked re up _ _ (k, p) ht))
+  · simp only [step]
+    exact List.mem_append.mpr (Or.inl (fire_reports .acked re up _ _ (k, p) ht))
+
+/-- **Renumbering from one.** `<enabled/>` renumbers the stored packets that are not covered by a
+pending `<failed/>` count `1, 2, …, n` keeping their order, sets `lastOut = n`, the inbound counter
+to 0 and consumes the pending count (client without sending continuations; with them the new
+stanzas follow as `n+1, …`, see `session_start_writes_only_numbered`). -/
+theorem renumber_from_one (pre : List Op) (up : Bool) :
+    let s := (run init pre).1
+    let rest := beyond s.handled s.unacked
+    (step s (.enabledNew [] up)).1.unacked = (List.range' 1 rest.length).zip (ids rest) ∧
+    (step s (.enabledNew [] up)).1.lastOut = rest.length ∧
+    (step s (.enabledNew [] up)).1.lastIn = 0 ∧
+    (step s (.enabledNew [] up)).1.enabled = true ∧
+    (step s (.enabledNew [] up)).1.handled = none := by
+  intro s rest
+  obtain ⟨a, _, hkf, _⟩ := (Inv.reachable pre).keys
+  have hu : (takeHandled s).1.unacked = rest := takeHandled_eq_beyond s hkf
+  have tf := takeHandled_fields s
+  simp only [step, fire_nil, enableCore, if_true]
+  rw [hu]
+  refine ⟨renumber_eq_zip 0 rest, ?_, ?_, ?_, ?_⟩ <;> first | rfl | trivial | exact tf.2.2.2.2
 
 /-! ## The handled-count reported to the server -/
 
@@ -283,14 +374,14 @@ theorem send_with_sm_stores_and_waits (s : St) (up : Bool) (h : s.enabled = true
   simp [step, sendStep, h, reportedIds_append]
 
 /-- An `<a/>` arriving while stream management is off (e.g. after the session closed) is ignored. -/
-theorem ack_ignored_when_disabled (s : St) (h : Nat) (hd : s.enabled = false) :
-    step s (.ack h) = (s, []) := by
+theorem ack_ignored_when_disabled (s : St) (h : Nat) (re : List Nat) (up : Bool)
+    (hd : s.enabled = false) : step s (.ack h re up) = (s, []) := by
   simp [step, hd]
 
 /-- A stale `<a h/>` (h below every stored number) changes nothing and reports nothing. -/
-theorem stale_ack_does_nothing (pre : List Op) (h : Nat)
+theorem stale_ack_does_nothing (pre : List Op) (h : Nat) (re : List Nat) (up : Bool)
     (hs : ∀ e ∈ (run init pre).1.unacked, h < e.1) :
-    step (run init pre).1 (.ack h) = ((run init pre).1, []) := by
+    step (run init pre).1 (.ack h re up) = ((run init pre).1, []) := by
   obtain ⟨a, _, hkf, _⟩ := (Inv.reachable pre).keys
   simp only [step]
   split
@@ -299,90 +390,95 @@ theorem stale_ack_does_nothing (pre : List Op) (h : Nat)
   · rfl
 
 /-- An `<a h/>` with `h` at or beyond the last number used (there is no upper check) confirms
-everything stored. -/
-theorem ack_beyond_confirms_everything (pre : List Op) (h : Nat)
+everything stored — but nothing a continuation sends meanwhile: that is newer than the `<a/>`. -/
+theorem ack_beyond_confirms_everything (pre : List Op) (h : Nat) (up : Bool)
     (hen : (run init pre).1.enabled = true) (hb : (run init pre).1.lastOut ≤ h) :
-    (step (run init pre).1 (.ack h)).1.unacked = [] ∧
-    reportedIds (step (run init pre).1 (.ack h)).2 = ids (run init pre).1.unacked := by
+    (step (run init pre).1 (.ack h [] up)).1.unacked = [] ∧
+    reportedIds (step (run init pre).1 (.ack h [] up)).2 = ids (run init pre).1.unacked := by
   obtain ⟨a, _, hkf, _⟩ := (Inv.reachable pre).keys
   have hall := (unacked_keys_invariant pre).2.2.2
   have hle : ∀ e ∈ (run init pre).1.unacked, e.1 ≤ h := by
     intro e he
     have := hall e.1 (by simp only [keys, List.mem_map]; exact ⟨e, he, rfl⟩)
     omega
-  simp only [step, hen, if_true]
-  rw [hkf.keptPart_eq_filter, hkf.ackedPart_eq_filter, reportedIds_ackReports]
+  simp only [step, hen, if_true, fire_nil]
+  rw [hkf.keptPart_eq_filter, hkf.ackedPart_eq_filter]
   constructor
   · apply List.filter_eq_nil_iff.mpr
     intro e he; have := hle e he; simp; omega
-  · congr 1
-    apply List.filter_eq_self.mpr
-    intro e he; simpa using hle e he
+  · have e : (List.filter (fun e => decide (e.1 ≤ h)) (run init pre).1.unacked) = (run init pre).1.unacked := by
+      apply List.filter_eq_self.mpr
+      intro e he; simpa using hle e he
+    rw [e]
+    exact reportedIds_ackReports _
+
+/-- `<failed h/>` only records the count; `<failed/>` without one changes nothing. -/
+theorem resumeFailed_stores_h (s : St) (h : Nat) :
+    step s (.resumeFailed (some h)) = ({ s with handled := some h }, []) ∧
+    step s (.resumeFailed none) = (s, []) := ⟨rfl, rfl⟩
 
 /-! ## Non-vacuity: the hypotheses above are met by concrete, non-trivial histories -/
 
 -- acknowledged only if covered / confirmed when acked: two stored stanzas, `<a h=1/>` confirms the first only
-example : (run init [.enabledNew true, .send true true, .send true true, .ack 1]).2 =
+example : (run init [.enabledNew [] true, .send true true, .send true true, .ack 1 [] true]).2 =
     [.wire (.pkt 0), .wire .r, .written true, .wire (.pkt 1), .wire .r, .written true, .report 0 .acked] := by decide
-example : (run init [.enabledNew true, .send true true, .send true true, .ack 1]).1.unacked = [(2, 1)] := by decide
+example : (run init [.enabledNew [] true, .send true true, .send true true, .ack 1 [] true]).1.unacked = [(2, 1)] := by decide
+example : (run init [.enabledNew [] true, .send true true, .send true true]).1.enabled = true ∧
+    (1, 0) ∈ (run init [.enabledNew [] true, .send true true, .send true true]).1.unacked := by decide
 -- resumption resends exactly the uncovered ones, in order, then <r/>
-example : wireOf (step (run init [.enabledNew true, .send true true, .send true false, .send true true,
-    .sessionClosed]).1 (.resumed 1 true)).2 = [.pkt 1, .pkt 2, .r] := by decide
+example : wireOf (step (run init [.enabledNew [] true, .send true true, .send true false, .send true true,
+    .sessionClosed]).1 (.resumed 1 [] true)).2 = [.pkt 1, .pkt 2, .r] := by decide
+-- … and with a sending continuation: resent first, the new stanza (id 2) after, numbered 3 and stored
+example : (step (run init [.enabledNew [] true, .send true true, .send true true, .sessionClosed]).1
+    (.resumed 1 [0] true)) =
+    ({ enabled := true, unacked := [(2, 1), (3, 2)], lastOut := 3, lastIn := 0, nextId := 3 },
+     [.wire (.pkt 1), .wire .r, .report 0 .acked, .wire (.pkt 2), .wire .r, .written true]) := by decide
 -- a new session resends all of them renumbered from 1
-example : (step (run init [.enabledNew true, .send true true, .send true true, .send true true, .ack 1,
-    .sessionClosed]).1 (.enabledNew true)) =
+example : (step (run init [.enabledNew [] true, .send true true, .send true true, .send true true, .ack 1 [] true,
+    .sessionClosed]).1 (.enabledNew [] true)) =
     ({ enabled := true, unacked := [(1, 1), (2, 2)], lastOut := 2, lastIn := 0, nextId := 3 },
      [.wire (.pkt 1), .wire (.pkt 2), .wire .r]) := by decide
--- h: two stanzas and a nonza received, <r/> is answered with h=2
-example : (step (run init [.enabledNew true, .recv .message, .recv .nonza, .recv .iq]).1 (.ackReq true)).2 =
-    [.wire (.a 2)] := by decide
--- covered_never_resent: hypothesis met (packet 0 acknowledged), packet 1 still resent later
-example : 0 ∈ reportedIds (run init [.enabledNew true, .send true true, .send true true, .ack 1]).2 := by decide
-example : pktsOf (run (run init [.enabledNew true, .send true true, .send true true, .ack 1]).1
-    [.sessionClosed, .resumed 1 true]).2 = [1] := by decide
--- acked_if_covered: stream management on, packet 0 stored under number 1, `<a h=1/>` covers it
-example : (run init [.enabledNew true, .send true true, .send true true]).1.enabled = true ∧
-    (1, 0) ∈ (run init [.enabledNew true, .send true true, .send true true]).1.unacked := by decide
--- h theorems: an `<a/>` and a `<resume/>` are really written after histories meeting the hypotheses
-example : Out.wire (.a 2) ∈ (step (run init [.enabledNew true, .recv .message, .sessionClosed,
-    .resumed 0 true, .recv .iq]).1 (.ackReq true)).2 := by decide
-example : Out.wire (.resume 1) ∈ (step (run init [.enabledNew true, .recv .presence, .recv .nonza,
-    .sessionClosed]).1 (.resumeReq true)).2 := by decide
--- the former defect witness: the stanza received while stream management is off is not counted
-example : (step (run init [.enabledNew true, .sessionClosed, .recv .message]).1 (.resumeReq true)).2 =
-    [.wire (.resume 0)] := by decide
-example : stanzasOnSession [.enabledNew true, .recv .message, .sessionClosed, .recv .presence,
-    .resumed 0 true, .recv .iq] = 2 := by decide
--- stale ack / ack beyond: hypotheses met
-example : ∀ e ∈ (run init [.enabledNew true, .send true true, .send true true, .ack 1]).1.unacked, 1 < e.1 := by decide
-example : (run init [.enabledNew true, .send true true, .send true true]).1.enabled = true ∧
-    (run init [.enabledNew true, .send true true, .send true true]).1.lastOut ≤ 7 := by decide
--- sending without stream management / a nonza with it
-example : (run init [.send true true, .send true false, .enabledNew true, .send false true]).2 =
-    [.wire (.pkt 0), .report 0 .sent, .written true, .report 1 .writeError, .written false,
-     .wire (.pkt 2), .report 2 .sent, .written true] := by decide
--- resetCache reports what is still stored as disconnected
-example : (run init [.enabledNew true, .send true true, .sessionClosed, .resetCache]).2 =
-    [.wire (.pkt 0), .wire .r, .written true, .report 0 .disconnected] := by decide
-
--- re-entrant continuations at the `<a/>` site: both reports send; the new stanzas are numbered 3 and 4 behind everything
-example : (step (run init [.enabledNew true, .send true true, .send true true]).1 (.ackRe 2 [0, 1] true)) =
+-- <failed h=2/> then <enabled/>: the two covered stanzas are confirmed after the resend, not written again;
+-- the continuation of packet 0 sends a stanza that is numbered 2 on the new session
+example : (run (run init [.enabledNew [] true, .send true true, .send true true, .send true true, .sessionClosed]).1
+    [.resumeFailed (some 2), .enabledNew [0] true]) =
+    ({ enabled := true, unacked := [(1, 2), (2, 3)], lastOut := 2, lastIn := 0, nextId := 4 },
+     [.wire (.pkt 2), .wire .r, .report 0 .acked, .wire (.pkt 3), .wire .r, .written true, .report 1 .acked]) := by decide
+-- failed_h_covered_never_resent / _are_acknowledged: hypotheses met
+example : (2, 1) ∈ (run init [.enabledNew [] true, .send true true, .send true true, .send true true,
+    .sessionClosed]).1.unacked ∧
+    (run init [.enabledNew [] true, .send true true, .send true true, .send true true, .sessionClosed,
+      .resumeFailed (some 2)]).1.handled = some 2 := by decide
+-- re-entrant continuations at the `<a/>` site: the new stanzas are numbered 3 and 4 behind everything, also when h is beyond
+example : (step (run init [.enabledNew [] true, .send true true, .send true true]).1 (.ack 3 [0, 1] true)) =
     ({ enabled := true, unacked := [(3, 2), (4, 3)], lastOut := 4, lastIn := 0, nextId := 4 },
      [.report 0 .acked, .wire (.pkt 2), .wire .r, .written true,
       .report 1 .acked, .wire (.pkt 3), .wire .r, .written true]) := by decide
--- … and with `h` beyond the last number used the loop reaches the first of them
-example : (step (run init [.enabledNew true, .send true true, .send true true]).1 (.ackRe 3 [0, 1] true)).1.unacked
-    = [(4, 3)] := by decide
--- the `<resumed/>` defect witness, spelled out: new packet 2 first, reported "sent", not stored
-example : (step (run init [.enabledNew true, .send true true, .send true true, .sessionClosed]).1
-    (.resumedRe 1 [0] true)) =
-    ({ enabled := true, unacked := [(2, 1)], lastOut := 2, lastIn := 0, nextId := 3 },
-     [.report 0 .acked, .wire (.pkt 2), .report 2 .sent, .written true, .wire (.pkt 1), .wire .r]) := by decide
--- partial theorem: hypothesis met with a sending continuation that is not among the acknowledged ones
-example : ∀ e ∈ (run init [.enabledNew true, .send true true, .send true true, .sessionClosed]).1.unacked,
-    e.1 ≤ 1 → [1].contains e.2 = false := by decide
--- the `<failed h/>` defect witness: packet 0, covered by h = 1, is written again on the new session
-example : pktsOf (run (run init [.enabledNew true, .send true true, .sessionClosed]).1
-    [.resumeFailed (some 1), .enabledNew true]).2 = [0] := by decide
+-- resetCache with sending continuations while stream management is on: the new stanzas are reported too
+example : (step (run init [.enabledNew [] true, .send true true]).1 (.resetCache [0] true)) =
+    ({ enabled := true, unacked := [], lastOut := 2, lastIn := 0, nextId := 2 },
+     [.report 0 .disconnected, .wire (.pkt 1), .wire .r, .written true, .report 1 .disconnected]) := by decide
+-- h: two stanzas and a nonza received, <r/> is answered with h=2
+example : (step (run init [.enabledNew [] true, .recv .message, .recv .nonza, .recv .iq]).1 (.ackReq true)).2 =
+    [.wire (.a 2)] := by decide
+example : Out.wire (.resume 1) ∈ (step (run init [.enabledNew [] true, .recv .presence, .recv .nonza,
+    .sessionClosed]).1 (.resumeReq true)).2 := by decide
+-- the former defect witness (commit 6d4ec74): the stanza received while stream management is off is not counted
+example : (step (run init [.enabledNew [] true, .sessionClosed, .recv .message]).1 (.resumeReq true)).2 =
+    [.wire (.resume 0)] := by decide
+example : stanzasOnSession [.enabledNew [] true, .recv .message, .sessionClosed, .recv .presence,
+    .resumed 0 [] true, .recv .iq] = 2 := by decide
+-- covered_never_resent: hypothesis met (packet 0 acknowledged), packet 1 still resent later
+example : 0 ∈ reportedIds (run init [.enabledNew [] true, .send true true, .send true true, .ack 1 [] true]).2 := by decide
+example : pktsOf (run (run init [.enabledNew [] true, .send true true, .send true true, .ack 1 [] true]).1
+    [.sessionClosed, .resumed 1 [] true]).2 = [1] := by decide
+-- stale ack / ack beyond: hypotheses met
+example : ∀ e ∈ (run init [.enabledNew [] true, .send true true, .send true true, .ack 1 [] true]).1.unacked, 1 < e.1 := by decide
+example : (run init [.enabledNew [] true, .send true true, .send true true]).1.enabled = true ∧
+    (run init [.enabledNew [] true, .send true true, .send true true]).1.lastOut ≤ 7 := by decide
+-- sending without stream management / a nonza with it
+example : (run init [.send true true, .send true false, .enabledNew [] true, .send false true]).2 =
+    [.wire (.pkt 0), .report 0 .sent, .written true, .report 1 .writeError, .written false,
+     .wire (.pkt 2), .report 2 .sent, .written true] := by decide
 
 end Qx.C09
